@@ -228,29 +228,85 @@ def run(repo: Repo, chk: Check):
     if len(ps) < 3:
         raise AnalysisError("_apply_output_mode: signature changed")
     numP, strP, modeP = ps[0], ps[1], ps[2]
-    seen_modes = {}
-    for n in acfg.nodes:
-        if n.kind != "return" or n.id not in acfg.reachable() or n.ast.value is None:
-            continue
-        v = n.ast.value
-        atoms = guard_atoms(acfg, n.id)
-        mode = None
-        for tst, p in atoms:
-            if p and isinstance(tst, ast.Compare) and isinstance(tst.ops[0], (ast.Eq, ast.Is)) and norm(tst.left) == modeP and norm(tst.comparators[0]).startswith("OutputMode."):
-                mode = norm(tst.comparators[0]).split(".")[1]
-        if isinstance(v, ast.Name) and v.id in (numP, strP):
-            what = "number" if v.id == numP else "spelling"
-        elif isinstance(v, ast.IfExp) and {norm(v.body), norm(v.orelse)} == {numP, strP}:
-            what = "either"
-        else:
-            what = "other:" + norm(v)
-        seen_modes[mode] = what
-        exp = {"VERBOSE": "spelling", "NUMERIC": "number"}.get(mode)
-        chk.judge("R08.c", f"types:_apply_output_mode:return under mode {mode}", what == exp if exp else what in ("either", "number", "spelling"),
-                  f"under output mode {mode} the function returns {what}, expected {exp or 'the number or the spelling of the same value'}", {"returns": what}, wam)
+    from .shared import return_paths
+
+    def is_mode_expr(e):
+        """the mode parameter, the global default utils._output_mode, or '<default> if <param> is None else <param>'"""
+        if isinstance(e, ast.Name) and e.id == modeP:
+            return True
+        if isinstance(e, ast.Attribute) and e.attr == "_output_mode":
+            return True
+        if isinstance(e, ast.IfExp) and is_mode_expr(e.body) and is_mode_expr(e.orelse):
+            return True
+        return False
+
+    def mode_names(e):
+        """OutputMode.X / a tuple, list or set of them -> ['X', ...] else None"""
+        if isinstance(e, ast.Attribute) and norm(e.value).endswith("OutputMode"):
+            return [e.attr]
+        if isinstance(e, (ast.Tuple, ast.List, ast.Set)):
+            out = []
+            for x in e.elts:
+                r = mode_names(x)
+                if r is None:
+                    return None
+                out += r
+            return out
+        return None
+
+    def cond_under(e, m):
+        """truth of a path condition when the effective mode is *m*: True / False / None (does not depend on the mode)"""
+        if isinstance(e, ast.BoolOp):
+            vals = [cond_under(v, m) for v in e.values]
+            if isinstance(e.op, ast.And):
+                return False if False in vals else (None if None in vals else True)
+            return True if True in vals else (None if None in vals else False)
+        if isinstance(e, ast.UnaryOp) and isinstance(e.op, ast.Not):
+            r = cond_under(e.operand, m)
+            return None if r is None else not r
+        if isinstance(e, ast.Compare) and len(e.ops) == 1:
+            l, r, op = e.left, e.comparators[0], e.ops[0]
+            if is_mode_expr(r) and not is_mode_expr(l):
+                l, r = r, l
+            if is_mode_expr(l):
+                if isinstance(r, ast.Constant) and r.value is None:
+                    return None      # 'no mode given': the default is looked up, any mode can result
+                names = mode_names(r)
+                if names is None:
+                    raise AnalysisError(f"_apply_output_mode: test on the mode not understood: {norm(e)}")
+                if isinstance(op, (ast.Eq, ast.Is, ast.In)):
+                    return m in names
+                if isinstance(op, (ast.NotEq, ast.IsNot, ast.NotIn)):
+                    return m not in names
+                raise AnalysisError(f"_apply_output_mode: test on the mode not understood: {norm(e)}")
+        if any(is_mode_expr(x) for x in ast.walk(e) if isinstance(x, (ast.Name, ast.Attribute))) and not (isinstance(e, ast.Compare)):
+            raise AnalysisError(f"_apply_output_mode: test on the mode not understood: {norm(e)}")
+        return None
+
+    paths = return_paths(am)
+    members = sorted(enum_tables(repo).get("OutputMode", {})) if "OutputMode" in enum_tables(repo) else ["VERBOSE", "NUMERIC", "COMPACT"]
     for need in ("VERBOSE", "NUMERIC"):
-        if need not in seen_modes:
-            chk.bad("R08.c", f"types:_apply_output_mode:return under mode {need}", f"no return guarded by output_mode == OutputMode.{need}", None, wam)
+        if need not in members:
+            members.append(need)
+    for m in members:
+        got = set()
+        for conds, v in paths:
+            feasible = True
+            for e, pol in conds:
+                r = cond_under(e, m)
+                if r is not None and r != pol:
+                    feasible = False
+            if not feasible:
+                continue
+            if isinstance(v, ast.Name) and v.id in (numP, strP):
+                got.add("number" if v.id == numP else "spelling")
+            else:
+                got.add("other:" + (norm(v) if v is not None else "None"))
+        exp = {"VERBOSE": {"spelling"}, "NUMERIC": {"number"}}.get(m)
+        ok_m = bool(got) and (got == exp if exp else got <= {"number", "spelling"})
+        chk.judge("R08.c", f"types:_apply_output_mode:return under mode {m}", ok_m,
+                  f"under output mode {m} the function returns {sorted(got) or 'nothing'}, expected {sorted(exp) if exp else 'the number or the spelling of the same value'}",
+                  {"returns": sorted(got)}, wam)
     # parameters are not reassigned (except the default of the mode)
     re_ = [norm(st) for st in ast.walk(am) if isinstance(st, (ast.Assign, ast.AugAssign)) and any(norm(x) in (numP, strP) for x in (st.targets if isinstance(st, ast.Assign) else [st.target]))]
     chk.judge("R08.c", "types:_apply_output_mode:number and spelling are returned unmodified", not re_, f"the parameters are modified: {re_}", None, wam)
@@ -283,12 +339,17 @@ def run(repo: Repo, chk: Check):
         sdefs = {id(d) for d in frd.at(sat, svar)}
         # the number: calc_hash(<svar>) / the accumulator of the loop over <svar>
         ok_num = False
-        if isinstance(num, ast.Name):
+        if fname == "compute_hash":
+            nexpr, nat = num, ids[0]
+            if isinstance(num, ast.Name):
+                nds = frd.at(ids[0], num.id)
+                if len(nds) == 1 and nds[0].kind == "assign" and not nds[0].index:
+                    nexpr, nat = nds[0].value, nds[0].node
+            ok_num = isinstance(nexpr, ast.Call) and norm(nexpr.func) == "calc_hash" and len(nexpr.args) == 1 \
+                and norm(nexpr.args[0]) == svar and {id(d) for d in frd.at(nat, svar)} == sdefs
+        elif isinstance(num, ast.Name):
             nds = frd.at(ids[0], num.id)
-            if fname == "compute_hash":
-                ok_num = len(nds) == 1 and nds[0].kind == "assign" and isinstance(nds[0].value, ast.Call) and norm(nds[0].value.func) == "calc_hash" \
-                    and norm(nds[0].value.args[0]) == svar and {id(d) for d in frd.at(nds[0].node, svar)} == sdefs
-            else:
+            if True:
                 ok_num = any(isinstance(lp, ast.For) and norm(lp.iter) == svar and any(isinstance(st, ast.Assign) and norm(st.targets[0]) == num.id for st in lp.body)
                              for lp in ast.walk(fn)) and not any(isinstance(st, ast.Assign) and norm(st.targets[0]) == svar for st in ast.walk(fn))
         chk.judge("R08.c", f"types:{fname}:number and spelling derive from the same string", ok_num,
